@@ -124,6 +124,7 @@ var listenStreams = []string{
 	"set a 5 0 2\r\nxy\r\nget a bb\r\n",
 	"get a\r\nquit\r\nget a\r\n",
 	"delete bb\r\ntouch a 10\r\n",
+	"get a bb ccc a\r\n",
 }
 
 func binaryStream() []byte {
@@ -177,6 +178,9 @@ func ZZDisconnect() {
 	}
 	l2.root.Put("a", true, []byte("old"), 7, 0)
 	l2.root.Put("bb", true, []byte("b"), 1, 0)
+	l2.root.Put("ccc", true, []byte("c"), 2, 0)
+	l1.root.Put("bb", rt.Bool("bb.inl1"), []byte("b"), 1, 0)
+	l1.root.Put("ccc", true, []byte("c"), 2, 0)
 	l1.root.Put("a", rt.Bool("a.inl1"), []byte("old"), 7, 0)
 
 	// the departed client's socket either still accepts the server's writes (they go nowhere)
@@ -202,9 +206,10 @@ func ZZDisconnect() {
 		rt.Assert("c15-l1-connection-closed", l1.conns[0].Closed >= 1)
 		rt.Assert("c15-l2-connection-closed", l2.conns[0].Closed >= 1)
 	}
+	// only the acceptor (blocked in Accept) is left besides what ran before the server started
+	rt.Logf("goroutines: base=%d now=%d", base, rt.LiveGoroutines())
+	rt.Assert("c15-no-goroutine-left-for-the-client", rt.LiveGoroutines() == base+1)
 	if rt.Symbolic() {
-		// only the acceptor (blocked in Accept) is left besides the harness
-		rt.Assert("c15-no-goroutine-left-for-the-client", rt.LiveGoroutines() == base+1)
 		rt.Assert("c15-no-key-lock-held", rt.HeldLocks() == 0)
 	}
 	_, okFrames := decodeEither(c1.out)
